@@ -290,3 +290,89 @@ Example C10_gen_witness :
   go_seq_TimeToMID 1700000000123456789 = 1700000000123%Z /\
   go_seq_TimeToMID (-1) = 0%Z /\ go_seq_TimeToMID (-1000000) = 18446744073709551615%Z.
 Proof. vm_compute. repeat split; reflexivity. Qed.
+
+(* ------------------------------------------------------------------ ownership on every exit path; hand-over to the embedded store
+   (ModelOwn.v: transcription of Ingestor.ProcessDocuments / processDocsToCompressor with their defers) *)
+From C10 Require Import ModelOwn ProofsOwn.
+Close Scope Z_scope.
+Open Scope nat_scope.
+
+(* On EVERY path through ProcessDocuments (too many bulks in flight; ctx done while waiting for the rate-limit ticket;
+   body read error / unparsable document after any number of documents; no surviving document; StoreDocuments error;
+   success) and for every pooled object o (compressor, the two uncompressed payload buffers, processor, ticket): the
+   actions of the call on o are exactly  -nothing-  (o not taken on this path: final state 0) or
+   Get (Write|Read)* Put  (final state 2): exactly one Put, after the last read or write of memory that belongs to o —
+   in particular after StoreDocuments, which reads the slices aliasing the compressor, has returned. *)
+Theorem C10_one_put_per_path : forall q o,
+  brun o 0 (code_pd q) = Some (if takes o q then 2 else 0).
+Proof. exact one_put_per_path. Qed.
+Print Assumptions C10_one_put_per_path.
+
+Theorem C10_one_put_counts : forall q o,
+  count_get o (code_pd q) = (if takes o q then 1 else 0) /\
+  count_put o (code_pd q) = (if takes o q then 1 else 0).
+Proof. exact one_put_counts. Qed.
+Print Assumptions C10_one_put_counts.
+
+(* C10_pool_exclusive re-stated WITHOUT the hypothesis "exactly one Put per path": the requests execute the transcribed
+   code itself. For every pool o, every sequence of arrivals (each with its own exit path), every interleaving of their
+   single actions and every choice sync.Pool makes: no object is owned by two requests or lies in the pool while owned,
+   and a request whose next action reads or writes memory of an object of that pool owns one. *)
+Theorem C10_pool_exclusive_paths : forall o evs,
+  let st := trun o code_pd evs in
+  NoDup (owned (t_reqs st) ++ t_pool st) /\
+  Forall (fun x => now_uses o x = true -> r_st x = 1 /\ exists v, r_var x = Some v /\ In v (owned (t_reqs st)))
+         (t_reqs st).
+Proof. exact pool_exclusive_paths. Qed.
+Print Assumptions C10_pool_exclusive_paths.
+
+Theorem C10_owners_distinct : forall o evs a x1 b x2 c v1 v2,
+  t_reqs (trun o code_pd evs) = a ++ x1 :: b ++ x2 :: c ->
+  r_st x1 = 1 -> r_var x1 = Some v1 -> r_st x2 = 1 -> r_var x2 = Some v2 -> v1 <> v2.
+Proof. exact owners_distinct. Qed.
+Print Assumptions C10_owners_distinct.
+
+(* Single-binary mode (the store is embedded, StoreDocuments ends in inMemoryAPIClient.Bulk -> Active.Append): the docs
+   block is copied into the docs file before the call returns; the metas block the store keeps queued for its index
+   worker is a COPY (slices.Clone). For every interleaving of requests (Get / CompressDocsAndMetas / StoreDocuments / Put,
+   any pool choice) and index-worker steps: what the worker reads from a queued block is what the block contained when
+   StoreDocuments returned — no later compression of any request can change bytes the store still reads. *)
+Theorem C10_single_mode_payload_private : forall evs,
+  Forall (fun e => snd (fst e) = snd e) (s_index (srun true evs)).
+Proof. exact single_mode_private. Qed.
+Print Assumptions C10_single_mode_payload_private.
+
+(* the seeded double Put (explicit Put on the error return + the deferred one): after one request that failed while its
+   body was read, two requests in flight own the same compressor; the life automaton rejects the path *)
+Example C10_double_put_refuted :
+  owned (t_reqs (trun OComp pd_m9 (TStart q_fail :: repeat (TStep 0 0) (length (pd_m9 q_fail)) ++
+                                   [TStart q_good; TStart q_good; TStep 1 0; TStep 2 0]))) = [0; 0] /\
+  brun OComp 0 (pd_m9 q_fail) = None.
+Proof. exact double_put_refuted. Qed.
+
+(* the same events on the code as it is: two different compressors *)
+Example C10_paths_nonvacuous :
+  owned (t_reqs (trun OComp code_pd (TStart q_fail :: repeat (TStep 0 0) (length (code_pd q_fail)) ++
+                                     [TStart q_good; TStart q_good; TStep 1 0; TStep 2 0]))) = [0; 1] /\
+  code_pd q_fail = [AGet OComp; AGet OTicket; AGet OProc; AGet OBinDocs; AWrite OBinDocs; AGet OBinMetas; AWrite OBinMetas;
+                    APut OBinMetas; APut OBinDocs; APut OProc; APut OTicket; APut OComp] /\
+  code_pd q_good = [AGet OComp; AGet OTicket; AGet OProc; AGet OBinDocs; AWrite OBinDocs; AGet OBinMetas; AWrite OBinMetas;
+                    AWrite OProc; AWrite OBinDocs; AWrite OBinMetas; ARead OBinDocs; ARead OBinMetas; AWrite OComp;
+                    APut OBinMetas; APut OBinDocs; APut OProc; APut OTicket; ARead OComp; APut OComp] /\
+  (* hypotheses of C10_owners_distinct *)
+  (exists a x1 b x2 c,
+     t_reqs (trun OComp code_pd (TStart q_fail :: repeat (TStep 0 0) (length (code_pd q_fail)) ++
+                                 [TStart q_good; TStart q_good; TStep 1 0; TStep 2 0])) = a ++ x1 :: b ++ x2 :: c /\
+     r_st x1 = 1 /\ r_var x1 = Some 0 /\ r_st x2 = 1 /\ r_var x2 = Some 1).
+Proof.
+  repeat split; try (vm_compute; reflexivity).
+  eexists [_], _, [], _, []. vm_compute. repeat split; reflexivity.
+Qed.
+
+(* the shallow request copy (seeded): bulk 0 is registered with bulk 1's IDs: its own ID is not found, bulk 1's ID
+   fetches bulk 0's document; with the clone both fetch their own *)
+Example C10_shallow_copy_refuted :
+  s_index (srun false (single_events [b0; b1] [true; true])) = [(0, [[2%N]], [[1%N]]); (1, [[2%N]], [[2%N]])] /\
+  single_fetch false [b0; b1] [true; true] = [[None]; [Some [100%N]]] /\
+  single_fetch true [b0; b1] [true; true] = [[Some [100%N]]; [Some [200%N]]].
+Proof. exact shallow_refuted. Qed.
